@@ -1034,7 +1034,8 @@ def sp_ltr(ex, args, kwargs, node):
 
 @spec("isnone")
 def sp_isnone(ex, args, kwargs, node):
-    return args[0] is None
+    from .engine import is_val
+    return is_val(args[0], None)          # python None, or a maybe-None object whose term equals None
 
 
 @spec("sin")
